@@ -13,10 +13,10 @@ package c18
 import (
 	"bufio"
 	"fmt"
-	"sort"
 	"math/rand"
 	"os"
 	"path/filepath"
+	"sort"
 	"strings"
 	"time"
 
@@ -25,6 +25,7 @@ import (
 	"github.com/evolbioinfo/goalign/align"
 	"github.com/evolbioinfo/gotree/acr"
 	"github.com/evolbioinfo/gotree/asr"
+	"github.com/evolbioinfo/gotree/io/nexus"
 	"github.com/evolbioinfo/gotree/io/utils"
 	"github.com/evolbioinfo/gotree/mutations"
 	"github.com/evolbioinfo/gotree/tree"
@@ -150,7 +151,11 @@ func siteCase(c *core.Ctx, name string, files map[string]string, params []string
 			}
 			params = nil
 			for _, n := range t.Nodes() {
-				params = append(params, n.Name())
+				if n.Tip() {
+					params = append(params, "T:"+n.Name())
+				} else {
+					params = append(params, "I:"+n.Name())
+				}
 			}
 			nodes := t.Nodes()
 			err := t.Rename(nm)
@@ -201,11 +206,7 @@ func siteCase(c *core.Ctx, name string, files map[string]string, params []string
 			}
 			params = t.AllTipNames()
 			so, _, _ := cliOnce(c, files, nil, "compare", "tips", "-i", "@in:tree", "-f", "@in:tips")
-			for _, l := range lines(so) {
-				if strings.HasPrefix(l, "(Tree 0) >") {
-					impl = append(impl, l)
-				}
-			}
+			impl = lines(so) // the whole standard output
 		case "mutations":
 			t := parseTree(files["tree"])
 			a := parseAlign(files["align"])
@@ -272,7 +273,7 @@ func siteCase(c *core.Ctx, name string, files map[string]string, params []string
 				if len(tip.Comments()) == 0 {
 					continue
 				}
-				groups := splitGroups(tip.Comments()[0])
+				groups := splitGroups(tip.Comments()[len(tip.Comments())-1]) // asr appends its comment after those of the input
 				for j, ch := range seq {
 					g := "MISSING"
 					if j < len(groups) {
@@ -288,6 +289,23 @@ func siteCase(c *core.Ctx, name string, files map[string]string, params []string
 			}
 			for _, ch := range order {
 				impl = append(impl, string(rune(ch))+"="+seen[ch])
+			}
+		case "nexusframe":
+			// WriteNexus: everything but the TREE lines, from the tip names of the trees in traversal order
+			translate := len(params) > 0 && params[0] == "translate"
+			for i, l := range strings.Split(strings.TrimSpace(files["tree"]), "\n") {
+				t := parseTree(l)
+				entries = append(entries, append([]string{fmt.Sprint(i)}, t.AllTipNames()...))
+			}
+			ch := utils.ReadMultiTrees(bufio.NewReader(strings.NewReader(files["tree"])), utils.FORMAT_NEWICK)
+			out, err := nexus.WriteNexus(ch, translate)
+			if err != nil {
+				panic(err)
+			}
+			for _, l := range lines(out) {
+				if !strings.HasPrefix(l, "  TREE ") {
+					impl = append(impl, l)
+				}
 			}
 		case "append":
 			// mutations.MutationList.Append called directly: files m and l hold "key<TAB>site" lines
@@ -439,8 +457,14 @@ func siteCases(c *core.Ctx, in *inputs) {
 	siteCase(c, "rename", map[string]string{"tree": in.tree, "map": in.mapfile + "absent\tzzz\n"}, nil)
 	siteCase(c, "rename", map[string]string{"tree": in.named, "map": in.mapfile + "I1\tinner1\nI2\tinner2\n"}, nil)
 	siteCase(c, "rename", map[string]string{"tree": in.tree, "map": in.chainmap}, nil)
+	siteCase(c, "rename", map[string]string{"tree": dupTip(in.tree), "map": in.mapfile}, nil)                                   // two nodes with one name: NewNodeIndex refuses
+	siteCase(c, "rename", map[string]string{"tree": in.tree, "map": in.tips[0] + "\tsame\n" + in.tips[1] + "\tsame\n"}, nil) // two tips get one name: UpdateTipIndex refuses
 	siteCase(c, "asrtip", map[string]string{"tree": in.tree, "align": in.protein}, nil)
 	siteCase(c, "acralphabet", map[string]string{"states": in.states}, nil)
+	siteCase(c, "nexusframe", map[string]string{"tree": in.multi}, []string{"translate"})
+	siteCase(c, "nexusframe", map[string]string{"tree": in.numeric}, []string{"translate"})
+	siteCase(c, "nexusframe", map[string]string{"tree": in.tree + "\n" + in.tree2 + "\n" + in.rooted2 + "\n"}, []string{"translate"})
+	siteCase(c, "nexusframe", map[string]string{"tree": in.multi}, []string{"plain"})
 	siteCase(c, "chardist", map[string]string{"tree": in.named, "align": in.anc}, nil)
 	{
 		// Append: key-disjoint maps, and maps sharing one or several keys
